@@ -243,6 +243,16 @@ def r2_derived_only_in_validate(ck, P):
             ck.ok(R, 'validate: %s dominates the clearing of dirty' % c.callee)
         else:
             ck.violation(R, v.name, 'order of ' + c.callee, 'dirty is cleared on a path that has not recomputed the image info', clear.loc())
+    # the recursion into the alpha map happens for clean owners too: the map has a dirty flag of its own
+    for c in v.calls(v.name):
+        dep = False
+        for br, succ in v.guard_edges(c.bb.id):
+            if br.a and ('field', 'image_common.dirty') in v.atoms(br.a[0]):
+                dep = True
+        if dep:
+            ck.violation(R, v.name, 'alpha-map revalidation', 'the alpha map is revalidated only when its owner is dirty: a property change of the map alone leaves it rendering with stale fetchers', c.loc())
+        else:
+            ck.ok(R, 'validate revalidates the alpha map independently of the owner\'s dirty flag')
     if not any(v.last_field(v.path(v.v(c.d['callee']).a[0])) == 'image_common.property_changed' for c in hook if v.v(c.d['callee']) is not None and v.v(c.d['callee']).op == 'load'):
         ck.violation(R, v.name, 'property_changed hook', 'validate does not invoke the type-specific property_changed hook', clear.loc())
     else:
@@ -708,3 +718,111 @@ def r20_4_alpha_map_exchange(ck, P):
                 ck.ok(R, '%s: refuses owner == referent' % f.name)
             else:
                 ck.violation(R, f.name, 'self reference', '%s accepts an image as its own alpha map: the reference count can never reach zero (leak, destroy callback never runs) and validate recurses forever' % f.name, s.loc())
+
+
+# ------------------------------------------------------------------------------------------- extensions found by seeded changes
+import re as _re
+_INIT_RE = _re.compile(r'pixman_region(32)?_init(_rect|_rects|_with_extents)?$')
+_FINI_RE = _re.compile(r'pixman_region(32)?_fini$')
+
+
+def r20_6_region_reinit(ck, P):
+    R = ck.rule('C20-R6', 'a region that may hold rectangles (a parameter or a field of a live object) is re-initialised only after pixman_region*_fini on it (or where it provably holds a single inline rectangle)', floor=2)
+    fp = fresh_params(P)
+    for f in P.functions():
+        if _re.match(r'pixman_region(32)?_init', f.name):
+            continue        # the init family itself: its region argument is uninitialised by contract
+        for c in f.calls():
+            if not c.callee or not _INIT_RE.match(c.callee) or not c.a:
+                continue
+            rs = common.roots(f, c.a[0])
+            if not any(r[0] == 'arg' for r in rs):
+                continue            # a local region or a fresh object
+            if all(r[0] == 'arg' and r[1] in fp.get(f, ()) for r in rs):
+                continue            # constructor context
+            ck.saw(f)
+            p = f.path(c.a[0])
+            fin = [d for d in f.calls() if d.callee and _FINI_RE.match(d.callee) and d.a and f.path(d.a[0]) == p and f.dominates(d, c)]
+            single = False
+            for br, succ in f.guard_edges(c.bb.id):
+                if br.a and any(a[0] == 'call' and (a[1] or '').endswith('_n_rects') for a in f.atoms(br.a[0])):
+                    single = True
+            if fin:
+                ck.ok(R, '%s: %s after fini' % (f.name, c.callee))
+            elif single:
+                ck.ok(R, '%s: %s on a single-rectangle region (no heap data)' % (f.name, c.callee))
+            else:
+                ck.violation(R, f.name, 're-initialisation by ' + c.callee, '%s overwrites a live region with %s without pixman_region*_fini first: the rectangle array it held is leaked' % (f.name, c.callee), c.loc())
+
+
+def r20_4b_exchange_order(ck, P):
+    R = ck.rule('C20-R4b', 'a reference exchange drops the old reference only when old and new differ (or after the new one has been taken): re-attaching the same object must not free it', floor=1)
+    for f in P.functions():
+        stores = [s for s in common.stores_field(f, 'image_common.alpha_map') if f.v(f.strip_casts(s.a[0])) is not None and f.v(f.strip_casts(s.a[0])).op == 'call' and f.v(f.strip_casts(s.a[0])).callee == 'pixman_image_ref']
+        if not stores:
+            continue
+        ck.saw(f)
+        refc = f.v(f.strip_casts(stores[0].a[0]))
+        newv = f.strip_casts(refc.a[0])
+        for c in f.calls('pixman_image_unref'):
+            y = f.v(f.strip_casts(c.a[0]))
+            if y is None or y.op != 'load' or f.last_field(f.path(y.a[0])) != 'image_common.alpha_map':
+                continue
+            ok = f.dominates(refc, c)
+            for br, succ in f.guard_edges(c.bb.id):
+                if not br.a:
+                    continue
+                cc, pred, ops = f.cond(br.a[0])
+                if cc is None or cc.op != 'icmp' or pred not in ('eq', 'ne') or len(ops) != 2:
+                    continue
+                sides = [f.strip_casts(o) for o in ops]
+                hasnew = any(s_ == newv for s_ in sides)
+                hasold = any(f.v(s_) is not None and f.v(s_).op == 'load' and f.last_field(f.path(f.v(s_).a[0])) == 'image_common.alpha_map' for s_ in sides)
+                if hasnew and hasold and (pred == 'ne') == (br.d['succ'][0] == succ):
+                    ok = True
+            if ok:
+                ck.ok(R, '%s: old alpha map released only when it differs from the new one' % f.name)
+            else:
+                ck.violation(R, f.name, 'unref of the old alpha map', '%s drops the reference on the current alpha map before taking the new one without testing old != new: re-attaching the same map while the image holds its only reference frees it while still attached' % f.name, c.loc())
+
+
+LINKERS = {'pixman_list_prepend': 1, 'pixman_list_move_to_front': 1}
+UNLINKERS = {'pixman_list_unlink': 0}
+
+
+def r15_6_free_while_linked(ck, P):
+    R = ck.rule('C15-R6', 'an object is never freed on a path on which one of its links was entered into a list and not unlinked again', floor=1)
+    n = 0
+    for f in P.functions():
+        links = [c for c in f.calls() if c.callee in LINKERS]
+        if not links:
+            continue
+        for c in links:
+            o = c.a[LINKERS[c.callee]]
+            base = f.root(f.path(o))
+            # frees of the object the link belongs to
+            for fr in f.calls('free'):
+                if not fr.a or f.root(f.path(fr.a[0])) != base or f.path(fr.a[0])[0][0] == 'load' and f.path(o)[0][0] != 'load':
+                    continue
+                n += 1; ck.saw(f)
+                def barrier(y):
+                    return y.op == 'call' and y.callee in UNLINKERS and f.root(f.path(y.a[UNLINKERS[y.callee]])) == base
+                hit = f.reach_avoiding(c, barrier, lambda y: y is fr)
+                if hit is None:
+                    ck.ok(R, '%s: free at %s not reachable from the link at %s without unlinking' % (f.name, fr.loc(), c.loc()))
+                else:
+                    ck.violation(R, f.name, 'free of a linked object', '%s frees an object at %s after entering its link into a list (%s) without unlinking it: the list keeps a dangling pointer' % (f.name, fr.loc(), c.loc()), fr.loc())
+    # the release function unlinks before freeing: positive instance
+    for f in P.functions():
+        un = [c for c in f.calls() if c.callee in UNLINKERS]
+        for c in un:
+            base = f.root(f.path(c.a[0]))
+            for fr in f.calls('free'):
+                if fr.a and f.root(f.path(fr.a[0])) == base:
+                    n += 1; ck.saw(f)
+                    if f.dominates(c, fr):
+                        ck.ok(R, '%s unlinks before freeing' % f.name)
+                    else:
+                        ck.violation(R, f.name, 'free before unlink', '%s frees the object before unlinking it' % f.name, fr.loc())
+    if n == 0:
+        ck.incomplete(R, 'no list link/unlink site found (list vocabulary renamed?)')
